@@ -16,7 +16,7 @@ from core import hexf, unhex
 META = dict(
     level="exploration",
     technique="exhaustive enumeration of scaled families (base point x tan beta x 256 sign patterns x k = 1..128) built three ways (fresh object, re-used evaluated object, copy of evaluated object), metamorphic scaling oracle on every doubling step plus fresh-vs-re-used agreement",
-    text="8 base points (benchmark points of the repository, rescaled where needed so that the lightest SUSY mass is >= 300 GeV, three independent generations, non-zero trilinears) x tan(beta) x all 256 sign patterns of (mu,M1,M2,M3,At,Ab,Atau,Amu); all dimensionful SUSY inputs and Q scaled by k = 1,2,...,128. On every step k -> 2k (k <= 64): |a1L(2k)/a1L(k) - 1/4| <= 50 (MZ/(k M_min))^2 with and without resummation; k^2 a2L(k) affine in log k (second difference over two doublings <= 50 (MZ/(k M_min))^2 sum|components|) and a2L(2k)/a2L(k) in [0.2,0.35] whenever |a2L| >= 0.5 sum|components| at both ends; the log-free 2L component (fermion/sfermion approximation) obeys the 1L bound, the photonic and chargino 2L(a) components the [0.2,0.35] window; |tan_beta_cor(2k) - tan_beta_cor(k)| <= 50 (MZ/(k M_min))^2; the 2L uncertainty is >= 2.3e-10 at every k, k^2 (unc - 2.3e-10) never exceeds 3x its running maximum and (unc - 2.3e-10) at k=128 is <= 2e-3 of its value at k=1. The one-loop bound is applied in two sharper forms as well: with the family constant c_fam = max(1, 2 max_{k<=4} |d(k)|/x_k^2) for k >= 8, and independent of any constant: d(k) = a1L(2k)/a1L(k) - 1/4 must fall at least like 1/k (|d(K)| <= 2 max_{k<=K/2} |d(k)| k/K once above 1e-12), which rounding noise amplified by the 1/k^2 law violates. In addition to the generic base points the degenerate strata are enumerated at msl(2,2) in {320, 1000, 3000} GeV x tan(beta) in {2,3,10,50}: universal smuon soft masses (exact, split 1e-6, 1e-3) x { each of |M1|,|M2|,|mu| at or within +-{1e-3,2e-3,4e-3,1e-2,4e-2} of the smuon soft mass or of the sneutrino mass, either sign, alone or with a second one exactly on it; pairs among |M1|,|M2|,|mu| at or within the same offsets of each other; all five equal with all sign combinations }, every family through k = 1..128 with the ratios between all consecutive k (component windows of the 2L parts are not applied there, the log-free 2L part is normalised to the sum of the moduli of its terms). Families on which any member throws or whose lightest SUSY mass is < 300 GeV are counted and skipped. Every family is produced three times: with a freshly built model per member, by moving the already evaluated k=1 object through all k (setters + calculate_masses()), and by moving a copy of the evaluated k=1 object to each k; the inequalities are required on all three, and every quantity (all a_mu functions and helpers, DR-bar masses, Yukawas) of the re-used models must agree with the fresh model of the same parameters to relative 1e-9, with identical exception behaviour.",
+    text="8 base points (benchmark points of the repository, rescaled where needed so that the lightest SUSY mass is >= 300 GeV, three independent generations, non-zero trilinears) x tan(beta) x all 256 sign patterns of (mu,M1,M2,M3,At,Ab,Atau,Amu); all dimensionful SUSY inputs and Q scaled by k = 1,2,...,128. On every step k -> 2k (k <= 64): |a1L(2k)/a1L(k) - 1/4| <= 50 (MZ/(k M_min))^2 with and without resummation; k^2 a2L(k) affine in log k (second difference over two doublings <= 50 (MZ/(k M_min))^2 sum|components|) and a2L(2k)/a2L(k) in [0.2,0.35] whenever |a2L| >= 0.5 sum|components| at both ends; the log-free 2L component (fermion/sfermion approximation) obeys the 1L bound, the photonic and chargino 2L(a) components the [0.2,0.35] window; |tan_beta_cor(2k) - tan_beta_cor(k)| <= 50 (MZ/(k M_min))^2; the 2L uncertainty is >= 2.3e-10 at every k, k^2 (unc - 2.3e-10) never exceeds 3x its running maximum and (unc - 2.3e-10) at k=128 is <= 2e-3 of its value at k=1. The one-loop bound is applied in two sharper forms as well: with the family constant c_fam = max(1, 2 max_{k<=4} |d(k)|/x_k^2) for k >= 8, and independent of any constant: d(k) = a1L(2k)/a1L(k) - 1/4 must fall at least like 1/k (|d(K)| <= 2 max_{k<=K/2} |d(k)| k/K once above 1e-12), which rounding noise amplified by the 1/k^2 law violates. In addition to the generic base points the degenerate strata are enumerated at msl(2,2) in {320, 1000, 3000} GeV x tan(beta) in {2,3,10,50}: universal smuon soft masses (exact, split 1e-6, 1e-3) x { each of |M1|,|M2|,|mu| at or within +-{1e-3,2e-3,4e-3,1e-2,4e-2} of the smuon soft mass or of the sneutrino mass, either sign, alone or with a second one exactly on it; pairs among |M1|,|M2|,|mu| at or within the same offsets of each other; all five equal with all sign combinations }, every family through k = 1..128 with the ratios between all consecutive k (component windows of the 2L parts are not applied there, the log-free 2L part is normalised to the sum of the moduli of its terms). Sweep strata drive the only k-dependent handles of scale-covariant code - dimensionless quantities that shrink with k - through every half-decade: msl(2,2) in {320, 1000, 3200, 10000, 32000} GeV with mse(2,2) = msl(2,2)(1 + {0, 1e-6, 1e-3, 1}), one of mu, M1, M2 (either sign) at {1, 0.32, 0.1, 0.032, 0.01} x msl(2,2) (>= 320 GeV), tan(beta) in {2,10,50}, k to 128 (thorough 512); the relative smuon mass splitting and |ZM(0,1)| (and the stau/sbottom/stop analogues) are read from the reported spectrum, the half-decades crossed between consecutive k are recorded as a histogram, and the run is an infrastructure error if a half-decade in [1e-9, 1e-4] is never crossed for the smuon splitting or mixing angle. Families on which any member throws or whose lightest SUSY mass is < 300 GeV are counted and skipped. Every family is produced three times: with a freshly built model per member, by moving the already evaluated k=1 object through all k (setters + calculate_masses()), and by moving a copy of the evaluated k=1 object to each k; the inequalities are required on all three, and every quantity (all a_mu functions and helpers, DR-bar masses, Yukawas) of the re-used models must agree with the fresh model of the same parameters to relative 1e-9, with identical exception behaviour.",
     note="trusted: dimensional analysis of the MSSM contributions (the oracle is the scaling relation, no reference numbers). The design's 'uncertainty shrinks by >= 2.5 per doubling / non-increasing' is not implied by the statement and false on the unchanged tree (the 2L(a) sfermion term is (A + B log k)/k^2 and changes sign); it is replaced by the envelope stated in `text`.",
     design_ref="3/C07")
 
@@ -44,6 +44,7 @@ def check_family(lay, v, KS=None, strata=False):
     g = lambda i, n: float(v[i][lay[n][0]])
     fails, st = [], {}
     mmin = min(float(np.min(v[0][mssmrun.col(lay, n)])) for n in SUSY)
+    MZ = float(v[0][lay["MVZ"][0]]) if "MVZ" in lay else globals()["MZ"]       # the Z mass of the SM input set in use
 
     def stat(name, val):
         lo, hi = st.get(name, (float("inf"), -float("inf")))
@@ -165,7 +166,7 @@ SPLITS = [0.0, 1e-6, 1e-3]
 SCALES = [320.0, 1000.0, 3000.0]     # 320 rather than 300: the sneutrino D-term would push M_min below the 300 GeV of the quantifier
 STRATA_TBS = [2.0, 3.0, 10.0, 50.0]
 X3 = ["M1", "M2", "Mu"]
-STRATA_COLS = SUSY + ["amu1L", "amu1L_nonres", "amu2L", "amu2L_nonres", "amu2LFSfapprox_nonres", "tan_beta_cor", "unc2L"] + COMPS + COMPS_NR + FS_PARTS
+STRATA_COLS = SUSY + ["amu1L", "amu1L_nonres", "amu2L", "amu2L_nonres", "amu2LFSfapprox_nonres", "tan_beta_cor", "unc2L"] + COMPS + COMPS_NR + FS_PARTS + ["mix_Sm", "mix_Stau", "mix_Sb", "mix_St"]
 
 
 def strata_configs(quick):
@@ -215,13 +216,61 @@ def strata_point(S, tb, split, cfg, k=1.0):
                 Ae=[k * 0.1 * S] * 3, Ad=[k * 0.1 * S] * 3, Au=[k * 0.1 * S] * 3, force=0.0)
 
 
+# Sweep strata.  Scale-covariant code can only depend on k through dimensionless quantities that shrink with k:
+# the relative smuon mass splitting ~ m_mu mu tan(beta)/(k M^2) (+ D-terms/(k M)^2), the smuon mixing angle
+# ~ m_mu mu tan(beta)/(k |msl^2 - mse^2|), MZ^2/(k M)^2 and the analogous third-generation ones.  A threshold on
+# one of them (a shortcut "if nearly degenerate / nearly unmixed") switches at some k inside a family.  So these
+# quantities are swept through every half-decade: heavy universal (and split) sleptons with a light mu, M1 or M2.
+SWEEP_SCALES = [320.0, 1000.0, 3200.0, 10000.0, 32000.0]
+SWEEP_RATIOS = [1.0, 0.32, 0.1, 0.032, 0.01]
+SWEEP_TBS = [2.0, 10.0, 50.0]
+SWEEP_SPLITS = [0.0, 1e-6, 1e-3, 1.0]            # mse(2,2) = msl(2,2) (1 + split)
+KS_SWEEP_THOROUGH = KS_BENCH + [256.0, 512.0]
+HALF_DECADES = [-0.5 * j for j in range(4, 22)]   # boundaries 1e-2, 10^-2.5, ..., 10^-10.5
+REQUIRED = [e for e in HALF_DECADES if -9.0 <= e <= -4.0]
+CROSS_Q = ["smuon_splitting", "smuon_mixing", "stau_splitting", "stau_mixing", "sbottom_splitting", "sbottom_mixing", "stop_splitting", "stop_mixing"]
+
+
+def sweep_configs(S):
+    out = []
+    for X in X3:
+        for r in SWEEP_RATIOS:
+            if r * S < 319.0:
+                continue                 # keeps the lightest SUSY mass at >= ~300 GeV
+            for sg in (1.0, -1.0):
+                out.append(("e:%s=%gM" % (X, r), {X: ("S", r - 1.0, sg)}))
+    return out
+
+
+def crossings(lay, v):
+    """{quantity: set of half-decade exponents crossed between consecutive members of the family}"""
+    import math
+    out = {}
+    for q, mass, mix in (("smuon", "MSm", "mix_Sm"), ("stau", "MStau", "mix_Stau"), ("sbottom", "MSb", "mix_Sb"), ("stop", "MSt", "mix_St")):
+        for kind in ("splitting", "mixing"):
+            seq = []
+            for x in v:
+                if kind == "splitting":
+                    m = x[mssmrun.col(lay, mass)]
+                    seq.append(abs(m[1] - m[0]) / max(m[1], m[0]))
+                else:
+                    seq.append(float(x[lay[mix][0]]))
+            s_ = set()
+            for a, b in zip(seq[:-1], seq[1:]):
+                if a > 0 and b > 0:
+                    lo, hi = sorted((math.log10(a), math.log10(b)))
+                    s_.update(e for e in HALF_DECADES if lo < e <= hi)
+            out["%s_%s" % (q, kind)] = s_
+    return out
+
+
 def _strata_worker(job):
-    S, tb, split, quick = job
-    cfgs = strata_configs(quick)
+    S, tb, split, kind, KS = job
+    cfgs = strata_configs(True) if kind == "deg" else sweep_configs(S)
     nk = len(KS)
     pts = [strata_point(S, tb, split, c, k) for _, c in cfgs for k in KS]
     res, lay = mssmrun.run_os_cols(pts, STRATA_COLS, "plain")
-    out = dict(fails=[], stats={}, checked=[], skipped=0, light=0, reasons={}, bylabel={})
+    out = dict(fails=[], stats={}, checked=[], skipped=0, light=0, reasons={}, bylabel={}, cross={}, n=len(cfgs) * nk)
     for ic, (lab, c) in enumerate(cfgs):
         rs = res[ic * nk:(ic + 1) * nk]
         bad = [r for r in rs if r[0] != "OK"]
@@ -230,10 +279,13 @@ def _strata_worker(job):
             k_ = "%s: %s" % (bad[0][1], bad[0][2][:60])
             out["reasons"][k_] = out["reasons"].get(k_, 0) + 1
             continue
-        fails, st, mmin = check_family(lay, [r[1] for r in rs], strata=True)
+        fails, st, mmin = check_family(lay, [r[1] for r in rs], KS=KS, strata=True)
         if mmin < 300.0:
             out["light"] += 1
             continue
+        for q, s_ in crossings(lay, [r[1] for r in rs]).items():
+            for e in s_:
+                out["cross"][(q, e)] = out["cross"].get((q, e), 0) + 1
         key = (lab, tuple(sorted((x, v[1], v[2]) for x, v in c.items())))
         out["checked"].append(key)
         cls = lab.split(":")[0]
@@ -347,6 +399,49 @@ def _worker(job):
                 seen.add(n)
                 out["fails"].append((p, "%s:differs:%s" % (tag, n),
                                      "%s[%d] = %r on the freshly built model at %g k0 but %r on the re-used model moved to the same parameters (rel. diff %.3e)" % (n, j, x, k, y, rel)))
+    # order of the setter calls: a thin subset of the families is built with a non-default SM input set once in
+    # the canonical and once in another order (fresh object per member); same inequalities, and every quantity
+    # must agree between the two
+    OA, OB, OWHO = [], [], []
+    sub = [(ip, p) for ip, p in enumerate(PATTERNS) if ip % 16 == 0]
+    opts = []
+    for j, (ip, p) in enumerate(sub):
+        o, sm = 1 + j % 4, 1 + j % 3
+        opts += [mssmrun.os_point(base, tb, p, k=k0 * k, order=0, sm=sm) for k in KS]
+        opts += [mssmrun.os_point(base, tb, p, k=k0 * k, order=o, sm=sm) for k in KS]
+    ores = mssmrun.run_os(opts, "plain")
+    out["order_checked"] = 0
+    for j, (ip, p) in enumerate(sub):
+        o = 1 + j % 4
+        r0, r1 = ores[2 * j * nk:(2 * j + 1) * nk], ores[(2 * j + 1) * nk:(2 * j + 2) * nk]
+        for k, f, r in zip(KS, r0, r1):
+            if _status(f)[:2] != _status(r)[:2]:
+                out["fails"].append((p, "order%d:status" % o, "at %g k0 the model set up in the canonical order gives %r, set up in order %d %r" % (k, _status(f), o, _status(r))))
+        if any(r[0] != "OK" for r in r0 + r1):
+            continue
+        w0, w1 = [r[1] for r in r0], [r[1] for r in r1]
+        rf, _, mm_ = check_family(lay, w1, strata=True)      # component windows are calibrated for the default SM input set only
+        if mm_ < 300.0:
+            continue
+        out["order_checked"] += 1
+        seen = set()
+        for chk, what in rf:
+            if chk in seen:
+                continue
+            seen.add(chk)
+            out["fails"].append((p, "order%d:%s" % (o, chk), what + "  {family set up in order %d, SM input set %d}" % (o, 1 + j % 3)))
+        for k, a, b in zip(KS, w0, w1):
+            OA.append(a); OB.append(b); OWHO.append((p, o, k))
+    if OA:
+        bads, _ = mssmrun.compare_block(lay, np.stack(OA), np.stack(OB))
+        for (p, o, k), bad in zip(OWHO, bads):
+            seen = set()
+            for n, j_, x, y, rel in bad:
+                if n in seen:
+                    continue
+                seen.add(n)
+                out["fails"].append((p, "order%d:differs:%s" % (o, n),
+                                     "%s[%d] = %r on the model set up in the canonical order at %g k0 but %r when set up in order %d (rel. diff %.3e)" % (n, j_, x, k, y, o, rel)))
     return base, k0, tb, out
 
 
@@ -360,6 +455,8 @@ def run(ctx):
     with mp.Pool(min(16, os.cpu_count() or 4)) as pool:
         for base, k0, tb, out in pool.imap(_worker, jobs):
             ctx.evals(len(PATTERNS) * len(KS) * 3)
+            ctx.evals(2 * 16 * len(KS))
+            reused["order_checked"] = reused.get("order_checked", 0) + out.get("order_checked", 0)
             for k_ in ("reused_checked", "stale", "reused_bitwise", "reused_numbers"):
                 reused[k_] = reused.get(k_, 0) + out[k_]
             for k_, v in out["reused_worst"].items():
@@ -385,13 +482,16 @@ def run(ctx):
                 ctx.sample({"base": base, "k0": k0, "tb": tb, "families_checked": len(out["checked"]),
                             "skipped": out["skipped_throw"] + out["skipped_partial"] + out["skipped_light"]})
     # degenerate strata
-    sjobs = [(S, tb, sp, ctx.quick) for S in SCALES for tb in STRATA_TBS for sp in SPLITS]
-    scnt, sstats, sreasons, sby = dict(checked=0, skipped=0, light=0, total=0), {}, {}, {}
-    ncfg = len(strata_configs(ctx.quick))
+    ks_sweep = KS_BENCH if ctx.quick else KS_SWEEP_THOROUGH
+    sjobs = [(S, tb, sp, "deg", KS_BENCH) for S in SCALES for tb in STRATA_TBS for sp in SPLITS] + \
+            [(S, tb, sp, "sweep", ks_sweep) for S in SWEEP_SCALES for tb in SWEEP_TBS for sp in SWEEP_SPLITS]
+    scnt, sstats, sreasons, sby, cross = dict(checked=0, skipped=0, light=0, total=0), {}, {}, {}, {}
     with mp.Pool(min(16, os.cpu_count() or 4)) as pool:
         for S, tb, sp, out in pool.imap(_strata_worker, sjobs):
-            ctx.evals(ncfg * len(KS))
-            scnt["total"] += ncfg
+            ctx.evals(out["n"])
+            scnt["total"] += out["n"] // len(KS_BENCH if out["n"] % len(KS_BENCH) == 0 and not out["n"] % len(ks_sweep) == 0 else ks_sweep)
+            for k_, v in out["cross"].items():
+                cross[k_] = cross.get(k_, 0) + v
             scnt["checked"] += len(out["checked"])
             scnt["skipped"] += out["skipped"]
             scnt["light"] += out["light"]
@@ -408,16 +508,25 @@ def run(ctx):
             for key in out["checked"]:
                 ctx.nontrivial(("stratum", S, tb, sp) + key)
             for lab, c, chk, what in out["fails"]:
-                ctx.fail("stratum:%s:%s" % (chk, lab.split(":")[0]),
+                cls_ = lab.split(":")[0]
+                ctx.fail("stratum:%s:%s" % (chk, cls_) if cls_ != "e" else
+                         "stratum:%s:e:%s%s:S%g:tb%g:split%g" % (chk, lab.split(":", 1)[1], "" if list(c.values())[0][2] > 0 else "(neg)", S, tb, sp),
                          "%s  [degenerate stratum %s %r, msl(2,2) = %g, mse(2,2) = msl(2,2) (1 + %g), tan(beta) = %g]" % (what, lab, c, S, sp, tb),
-                         {"stratum": {"S": hexf(S), "tb": hexf(tb), "split": hexf(sp), "label": lab,
+                         {"stratum": {"S": hexf(S), "tb": hexf(tb), "split": hexf(sp), "label": lab, "kmax": (ks_sweep[-1] if lab.startswith("e:") else KS_BENCH[-1]),
                                       "cfg": {x: [v[0], hexf(v[1]), v[2]] for x, v in c.items()}}})
+    # coverage requirement: the smuon splitting and the smuon mixing angle cross every half-decade in [1e-9, 1e-4]
+    hist = {q: {("1e%g" % e): cross.get((q, e), 0) for e in HALF_DECADES} for q in CROSS_Q}
+    ctx.note("half_decades_crossed_between_consecutive_k(families per boundary)", hist)
+    missing = [(q, "1e%g" % e) for q in ("smuon_splitting", "smuon_mixing") for e in REQUIRED if not cross.get((q, e))]
+    if missing:
+        from core import InfraError
+        raise InfraError("C07 sweep strata do not cross these half-decades: %r" % (missing,))
     ctx.note("strata_families_total", scnt["total"])
     ctx.note("strata_families_checked", scnt["checked"])
     ctx.note("strata_families_skipped(throw)", scnt["skipped"])
     ctx.note("strata_families_skipped(lightest_mass_below_300)", scnt["light"])
     ctx.note("strata_skip_reasons", sreasons)
-    ctx.note("strata_families_checked_by_class(a,b,b2,c,d)", dict(sorted(sby.items())))
+    ctx.note("strata_families_checked_by_class(a,b,b2,c,d; e = sweep of light mu/M1/M2 under heavy sleptons)", dict(sorted(sby.items())))
     ctx.note("strata_observed_ranges", {k_: ([float("%.4g" % v[0]), float("%.4g" % v[1])] if isinstance(v, tuple) else v)
                                         for k_, v in sorted(sstats.items()) if "amu1L" in k_ or "tbc" in k_})
     ctx.note("families_total", len(jobs) * len(PATTERNS))
@@ -427,6 +536,7 @@ def run(ctx):
     ctx.note("families_skipped_lightest_mass_below_300", cnt["skipped_light"])
     ctx.note("skip_reasons", reasons)
     ctx.note("reused_families_checked(chain+copy)", reused.get("reused_checked", 0))
+    ctx.note("families_checked_in_a_non_canonical_setup_order(other SM input sets)", reused.get("order_checked", 0))
     ctx.note("reused_vs_fresh_numbers_compared", reused.get("reused_numbers", 0))
     ctx.note("reused_vs_fresh_numbers_bitwise_equal", reused.get("reused_bitwise", 0))
     ctx.note("reused_vs_fresh_largest_relative_differences",
@@ -455,12 +565,13 @@ def replay(ctx, path):
         e = dd["stratum"]
         cfg = {x: (v[0], unhex(v[1]), float(v[2])) for x, v in e["cfg"].items()}
         S, tb, sp = unhex(e["S"]), unhex(e["tb"]), unhex(e["split"])
-        res, lay = mssmrun.run_os_cols([strata_point(S, tb, sp, cfg, k) for k in KS], STRATA_COLS, "plain")
+        ks = [k for k in KS_SWEEP_THOROUGH if k <= e.get("kmax", KS_BENCH[-1])]
+        res, lay = mssmrun.run_os_cols([strata_point(S, tb, sp, cfg, k) for k in ks], STRATA_COLS, "plain")
         if any(r[0] != "OK" for r in res):
             print("replay: family skipped now (%r)" % ([r[1:3] for r in res if r[0] != "OK"][:1],))
             return 0
-        fails, _, mmin = check_family(lay, [r[1] for r in res], strata=True)
-        want = d["key"].split(":", 1)[1].rsplit(":", 1)[0]
+        fails, _, mmin = check_family(lay, [r[1] for r in res], KS=ks, strata=True)
+        want = d["key"].split(":", 1)[1].split(":e:")[0] if ":e:" in d["key"] else d["key"].split(":", 1)[1].rsplit(":", 1)[0]
         hit = [f for f in fails if f[0] == want] or fails
         for chk, what in hit[:8]:
             print("replay: [%s] %s" % (chk, what))
@@ -493,6 +604,22 @@ def replay(ctx, path):
         for k, bad in zip(KS, bads):
             for n, j, x, y, rel in bad:
                 fails.append(("%s:differs:%s" % (tag, n), "%s[%d] = %r fresh vs %r re-used at %g k0 (rel %.3e)" % (n, j, x, y, k, rel)))
+    # families set up in a non-canonical order of the setter calls, non-default SM input sets
+    for o in (1, 2, 3, 4):
+        for sm in (1, 2, 3):
+            r0 = mssmrun.run_os([mssmrun.os_point(dd["base"], tb, p, k=k0 * k, order=0, sm=sm) for k in KS], "plain")
+            r1 = mssmrun.run_os([mssmrun.os_point(dd["base"], tb, p, k=k0 * k, order=o, sm=sm) for k in KS], "plain")
+            for k, f, r in zip(KS, r0, r1):
+                if _status(f)[:2] != _status(r)[:2]:
+                    fails.append(("order%d:status" % o, "at %g k0 canonical %r, order %d %r" % (k, _status(f), o, _status(r))))
+            if any(r[0] != "OK" for r in r0 + r1):
+                continue
+            w0, w1 = [r[1] for r in r0], [r[1] for r in r1]
+            fails += [("order%d:%s" % (o, chk), what) for chk, what in check_family(lay, w1, strata=True)[0]]
+            bads, _ = mssmrun.compare_block(lay, np.stack(w0), np.stack(w1))
+            for k, bad in zip(KS, bads):
+                for n, j, x, y, rel in bad[:2]:
+                    fails.append(("order%d:differs:%s" % (o, n), "%s[%d] = %r canonical vs %r in set-up order %d, SM set %d at %g k0 (rel %.3e)" % (n, j, x, y, o, sm, k, rel)))
     want = d["key"].rsplit(":", 1)[0]
     hit = [f for f in fails if f[0] == want] or fails
     for chk, what in hit[:8]:
@@ -500,5 +627,5 @@ def replay(ctx, path):
     if hit and mmin >= 300.0:
         print("VIOLATION property=C07 replay=%s" % path)
         return 1
-    print("replay: holds now (all C07 inequalities on the stored family, fresh and re-used objects)")
+    print("replay: holds now (all C07 inequalities on the stored family: fresh, re-used objects and every set-up order)")
     return 0
